@@ -245,6 +245,8 @@ def usage_run(k, sit):
     wd = common.subscratch(f'c04-usage{k}')
     spec = {'mode': 'contains', 'markers': ['check-sat', '3']}
     opts = ['--strategy', sit['strategy']]
+    if sit.get('flag', 'none') != 'none':
+        opts += sit['flag'].split(' ')
     f = sit['fault']
     import corpus
     text = corpus.FLAT
@@ -307,7 +309,8 @@ def main():
     # ---- model: usage matrix ---------------------------------------------
     sits = []
     for st in common.tlc_generate(rep, 'Main', 'MC_Main.cfg', timeout=300):
-        sits.append({'fault': st['fault'], 'entry': st['entry'],
+        sits.append({'flag': st.get('flag', 'none'),
+                     'fault': st['fault'], 'entry': st['entry'],
                      'strategy': st['strategy'], 'outcome': st['outcome'],
                      'status': st['status']})
     _t0 = time.time()
@@ -403,7 +406,8 @@ def main():
     for sit, ur in zip(sits, urs):
         rep.count()
         rep.nontrivial('usage:' + json.dumps(sit, sort_keys=True))
-        sig = f'{sit["fault"]}:{sit["entry"]}'
+        sig = f'{sit["fault"]}:{sit["entry"]}' + (
+            ':' + sit['flag'] if sit.get('flag', 'none') != 'none' else '')
         rp = {'situation': sit}
         if ur.timed_out:
             rep.violation(f'usage-hang:{sig}', f'no exit within 120 s: {sit}',
